@@ -1,3 +1,10 @@
 #!/bin/sh
-# placeholder; replaced when frontend exists
-exit 0
+# Builds the govc front end (bin/goast) offline from the vendored sources with go1.26.8 and checks the back-end tools.
+set -e
+cd "$(dirname "$0")"
+export PATH=/opt/veriftools/go1.26.8/bin:$PATH GOFLAGS=-mod=vendor GOPROXY=off GOSUMDB=off GOTOOLCHAIN=local
+mkdir -p bin evidence replays
+(cd frontend && go build -o ../bin/goast .)
+python3-vt -c "import z3; assert z3.get_version_string().startswith('5.'), z3.get_version_string()"
+for t in z3 z3-new cvc5; do command -v $t >/dev/null || { echo "missing solver $t" >&2; exit 1; }; done
+echo "govc setup ok"
